@@ -73,6 +73,19 @@ def gen_specs(run):
         specs.append({"id": f"c02-batch-{bi}", "group": "fm", "members": mems, "derived": derived,
                       "verifies": [{"mode": "VerifyOnly", "vmembers": vm_h}, {"mode": rng.choice(VMODES), "vmembers": vm_a, "_expect": "err", "_why": "cooperating +-delta on d1 in one batch"}],
                       "_conf": [b, n, T]})
+    # a statement for which NO proof is supplied at all must never end up accepted: surplus statements (with their transcripts) behind a full internal
+    # chunk of 256 valid triples, behind two chunks, and inside the first chunk
+    memv = gen.mk_member(rng, 2, 1, T=1)
+    a = gen.vmember(memv, 0)
+    false_stmt = gen.stmt_of(memv)
+    false_stmt["commit"] = [{"junk": 77}]
+    orphan = {"stmt": false_stmt, "ctx": memv["ctx"]}
+    for name, vm in [("257 statements, 256 proofs", [a] * 256 + [orphan]), ("2 statements, 1 proof", [a, orphan])] + \
+                    ([] if quick else [("513 statements, 512 proofs", [a] * 512 + [orphan]), ("300 statements, 256 proofs", [a] * 256 + [orphan] * 44)]):
+        specs.append({"id": f"c02-orphan-{len(vm)}", "group": "fm", "members": [memv], "with_gens": False, "log_merlin": False, "log_msm": False, "_no_modes": True,
+                      "verifies": [{"mode": "VerifyOnly", "vmembers": [a], "log": False}] +
+                                  [{"mode": md, "vmembers": vm, "log": False, "_expect": "err", "_why": f"unproven false statement behind valid triples ({name})"} for md in VMODES],
+                      "_conf": [2, 1, 1]})
     # the relation is the one of the statement's OWN generators, also for the largest statement of a mixed batch that is not first
     for sp in gen.mixed_generator_batches(rng, quick, "c02g"):
         sp["_conf"] = sp["_conf"][:3]
